@@ -126,7 +126,9 @@ def actions_for(draw, spec, kinds=None, max_sites=6, min_sites=0):
       else:
         lst.append([k])
     elif k == "scribble":
-      lst.append([k, "note%d" % draw(st.integers(0, 3))])
+      # notes are free text: indentation, trailing blanks and line breaks are the author's business
+      lst.append([k, draw(st.sampled_from(["note0", "note1", "note2", "note3", "note  two blanks", "    note indented",
+                                           "note trailing   ", "note line end\n", "note\ttab", "note   "]))])
     elif k == "is_in":
       lst.append([k, draw(st.integers(0, n - 1))])
     else:
